@@ -6,6 +6,7 @@ common/math, the live Istanbul jump table); `Spec.*` (ModelSpec.lean, ModelTable
 specification; `step` (Model.lean) is the interpreter loop of core/vm/interpreter.go.
 -/
 import YouVerif.C15.ProofsStep
+import YouVerif.C15.ProofsMem
 namespace YouVerif.C15.Props
 open YouVerif.C15 YouVerif.C15.Proofs
 
@@ -92,6 +93,35 @@ theorem computational_step (code : Array Byte) (s : VM) (op : Nat) (ws ws' : Lis
     (happ : Spec.apply op ws = some ws') (hgas : Spec.gas op ws ≤ s.gas) :
     step code s = .next { s with stack := enc ws', gas := s.gas - Spec.gas op ws, pc := s.pc + 1 } :=
   Proofs.computational_step code s op ws ws' hop hcode hstack hlen happ hgas
+
+
+/-! ### 5. memory and storage opcodes read back what was written
+(stated on successful steps: `step … = .next …` means the stack and gas checks of the loop passed) -/
+
+/-- MSTORE(off, v) followed — after any steps that leave the memory unchanged — by MLOAD(off) yields `v`;
+other stack items of the loading state are untouched -/
+theorem mstore_mload (code1 code2 : Array Byte) (s s1 s2 s3 : VM) (off v : Int) (rest rest2 : List Int)
+    (hoff : 0 ≤ off) (hv : 0 ≤ v ∧ v < 2^256)
+    (h1c : (code1.getD s.pc 0).toNat = 0x52) (h1s : s.stack = off :: v :: rest) (h1 : step code1 s = .next s1)
+    (hmem : s2.mem = s1.mem)
+    (h2c : (code2.getD s2.pc 0).toNat = 0x51) (h2s : s2.stack = off :: rest2) (h2 : step code2 s2 = .next s3) :
+    s3.stack = v :: rest2 :=
+  Proofs.mstore_mload code1 code2 s s1 s2 s3 off v rest rest2 hoff hv h1c h1s h1 hmem h2c h2s h2
+
+/-- SSTORE(k, v) followed — after any steps that leave the written storage unchanged — by SLOAD(k) yields `v` -/
+theorem sstore_sload (code1 code2 : Array Byte) (s s1 s2 s3 : VM) (k v : Int) (rest rest2 : List Int)
+    (hv : 0 ≤ v ∧ v < 2^256)
+    (h1c : (code1.getD s.pc 0).toNat = 0x55) (h1s : s.stack = k :: v :: rest) (h1 : step code1 s = .next s1)
+    (hstore : s2.store = s1.store)
+    (h2c : (code2.getD s2.pc 0).toNat = 0x54) (h2s : s2.stack = k :: rest2) (h2 : step code2 s2 = .next s3) :
+    s3.stack = v :: rest2 :=
+  Proofs.sstore_sload code1 code2 s s1 s2 s3 k v rest rest2 hv h1c h1s h1 hstore h2c h2s h2
+
+/-- the hypotheses of `mstore_mload` are satisfiable: `MSTORE` then `MLOAD` at offset 5 (test on literals) -/
+example : ∃ s1 s3, step #[0x52, 0x51] { stack := [5, 77, 9], gas := 100 } = .next s1 ∧
+    step #[0x52, 0x51] { s1 with stack := [5, 9] } = .next s3 ∧ s3.stack = [77, 9] := by
+  refine ⟨_, _, rfl, rfl, ?_⟩
+  decide
 
 /-! ### non-vacuity and test vectors (tests on literals, by evaluation) -/
 
